@@ -11,15 +11,18 @@ package main
 import (
 	"encoding/json"
 	"fmt"
+	"sort"
 	"strings"
 )
 
 var (
+	// (one repository is a string prefix of another, two differ in one separator only and share their DNS label)
 	c20Repos = []string{"crossplane/provider-aws", "crossplane-contrib/provider-helm", "upbound/provider-gcp", "function-patch-and-transform",
-		"crossplane/provider-aws", "a/b", "a-b", "org/app-latest", "org/team/very-long-repository-name-that-exceeds-the-sixty-three-characters-of-a-dns-label"}
+		"crossplane/provider-aws", "a/b", "a-b", "org/app-latest", "org/team/very-long-repository-name-that-exceeds-the-sixty-three-characters-of-a-dns-label",
+		"crossplane/provider-aws-s3", "crossplane/provider"}
 	c20Regs   = []string{"", "", "xpkg.upbound.io", "xpkg.upbound.io", "registry.example.com:5000", "docker.io", "index.docker.io", "localhost", "ghcr.io"}
 	c20Tags   = []string{"", ":v1.2.3", ":latest", ":v0.1.0-rc.1", "@sha256:" + strings.Repeat("a1", 32), ":v1.2.3@sha256:" + strings.Repeat("0f", 32)}
-	c20BadImg = []string{"", "UPPER/Case:v1", "has space:v1", "foo:bad tag!", "x/y@sha256:short", "preloaded package"}
+	c20BadImg = []string{"", "UPPER/Case:v1", "has space:v1", "foo:bad tag!", "x/y@sha256:short", "preloaded package", "crossplane/provider-aws/", "crossplane/provider-aws:", "/crossplane/provider-aws"}
 )
 
 func c20GenImg(r *Rng) string {
@@ -38,6 +41,15 @@ func c20GenImg(r *Rng) string {
 func c20GenImgs(r *Rng, max int) []c20Img {
 	out := []c20Img{}
 	for i, n := 0, r.Intn(max+1); i < n; i++ {
+		if len(out) > 0 && r.Chance(1, 10) {
+			// the same repository requested twice: verbatim, or at another version
+			prev := Pick(r, out).Img
+			if c20Parse(prev) != nil && r.Bool() {
+				prev = c20WrittenName(prev) + Pick(r, c20Tags)
+			}
+			out = append(out, c20Img{Img: prev})
+			continue
+		}
 		out = append(out, c20Img{Img: c20GenImg(r)})
 	}
 	return out
@@ -111,7 +123,7 @@ func c20GenWhcDir(r *Rng) c20Dir {
 		if r.Chance(1, 3) {
 			f.Kind = "M"
 		}
-		m := 1 + r.Intn(2)
+		m := 1 + r.Intn(3)
 		if r.Chance(1, 12) {
 			m = 0
 		}
@@ -313,8 +325,23 @@ func c20GenStored(r *Rng, s *c20Scn, steps []c20Step) {
 						c.Stored = append(c.Stored, "v1")
 					}
 					st.Crds = append(st.Crds, c)
-					for i, n := 0, r.Intn(3); i < n; i++ {
+					for i, n := 0, r.Intn(4); i < n; i++ {
 						st.Crs = append(st.Crs, c20Cr{Crd: c.Name, Name: fmt.Sprintf("cr-%d", i), Payload: r.Intn(5)})
+					}
+					// a look-alike: the same plural (hence the same Kind) in ANOTHER API group, with resources of its own
+					// stored at the old version - the migrator must not touch them
+					if i := strings.Index(stp.Crd, "."); i > 0 && r.Chance(1, 3) {
+						twin := stp.Crd[:i] + ".other.example.org"
+						dup := false
+						for _, e := range st.Crds {
+							dup = dup || e.Name == twin
+						}
+						if !dup {
+							st.Crds = append(st.Crds, c20Crd{Name: twin, Content: 2, Versions: vs, Stored: []string{stp.Old, "v1"}, Extra: 1})
+							for i, n := 0, 1+r.Intn(2); i < n; i++ {
+								st.Crs = append(st.Crs, c20Cr{Crd: twin, Name: fmt.Sprintf("cr-%d", i), Payload: 7})
+							}
+						}
 					}
 				}
 			}
@@ -378,6 +405,22 @@ func c20GenStored(r *Rng, s *c20Scn, steps []c20Step) {
 	// unrelated objects that nobody asked for
 	if r.Chance(1, 4) {
 		st.Secrets = append(st.Secrets, c20Secret{Name: "unrelated", Crt: &c20Blob{T: "j", N: 5}, Others: 1})
+	}
+	// look-alike secret names: a configured name plus a suffix / minus its last character / in upper case,
+	// holding complete material of a foreign authority
+	if r.Chance(1, 4) {
+		names := []string{}
+		for n := range secSeen {
+			names = append(names, n)
+		}
+		sort.Strings(names)
+		if len(names) > 0 {
+			n := Pick(r, names)
+			alike := Pick(r, []string{n + "-2", n[:len(n)-1], strings.ToUpper(n), n + "."})
+			if !secSeen[alike] && alike != "" && c20FindSecret(st.Secrets, alike) == nil {
+				st.Secrets = append(st.Secrets, c20Secret{Name: alike, Crt: c20CACert(40), Key: &c20Blob{T: "k", KP: 40}, CA: c20CACert(40), Meta: 2})
+			}
+		}
 	}
 	if r.Chance(1, 5) {
 		st.Crds = append(st.Crds, c20Crd{Name: "things.example.org", Content: 4, Versions: []c20Ver{{N: "v1", S: true}}, Stored: []string{"v1"}, Extra: 2})
@@ -485,29 +528,91 @@ func c20Gen(r *Rng, tier string) *c20Scn {
 		c20GenStored(r, s, steps)
 	}
 	s.Real = r.Chance(1, 60)
+	s.Reuse = r.Chance(1, 4)
+	s.Decoy = r.Chance(1, 5)
 	c20Normalize(s)
-	n := c20CountCalls(s)
+	lines := c20BaselineLog(s)
+	n := len(lines)
+	// the calls whose error class the code looks at (or could be tempted to): every Get and List, the Creates of the defaults
+	branching := []int{}
+	for k, l := range lines {
+		if strings.HasPrefix(l, "get:") || strings.HasPrefix(l, "list:") || strings.HasPrefix(l, "create:SC:") || strings.HasPrefix(l, "create:DRC:") || strings.HasPrefix(l, "create:L:") {
+			branching = append(branching, k)
+		}
+	}
 	fault := func() c20Run {
 		k := 0
 		if n > 0 {
 			k = r.Intn(n)
 		}
-		return c20Run{K: k, O: Pick(r, c20Outcomes)}
+		f := c20Run{K: k, O: Pick(r, c20Outcomes)}
+		if f.O == "fail" && r.Chance(3, 4) {
+			f.Cls = Pick(r, c20Classes[1:])
+			if len(branching) > 0 && r.Chance(1, 2) {
+				f.K = Pick(r, branching)
+				if r.Chance(1, 3) { // the last ones are the Creates of the default objects
+					f.K = branching[len(branching)-1-r.Intn(min(3, len(branching)))]
+				}
+			}
+		}
+		return f
 	}
 	ok := c20Run{K: -1}
-	switch r.Intn(8) {
-	case 0:
-		s.Runs = []c20Run{ok}
-	case 1, 2:
+	switch x := r.Intn(10); {
+	case x >= 8 && len(branching) > 0:
+		// error-class sweep: ONE call the code looks at the error class of (a Get, a List, the Create of a default
+		// object) is refused in 2-4 consecutive runs, each time with another class; then fault-free runs
+		groups := [][]string{{}, {}, {}}
+		seen := map[string]bool{}
+		for _, k := range branching {
+			l := lines[k]
+			if seen[l] {
+				continue
+			}
+			seen[l] = true
+			switch {
+			case strings.HasPrefix(l, "create:"):
+				groups[0] = append(groups[0], l)
+			case strings.HasPrefix(l, "list:"):
+				groups[1] = append(groups[1], l)
+			default:
+				groups[2] = append(groups[2], l)
+			}
+		}
+		var g []string
+		for len(g) == 0 {
+			g = Pick(r, groups)
+		}
+		at := Pick(r, g)
+		cls := append([]string{}, c20Classes[1:]...)
+		for i := len(cls) - 1; i > 0; i-- {
+			j := r.Intn(i + 1)
+			cls[i], cls[j] = cls[j], cls[i]
+		}
+		for i, m := 0, 2+r.Intn(3); i < m; i++ {
+			s.Runs = append(s.Runs, c20Run{K: -1, O: "fail", Cls: cls[i], At: at})
+		}
+		s.Runs = append(s.Runs, ok)
+		if r.Bool() {
+			s.Runs = append(s.Runs, ok)
+		}
+	case x >= 8:
 		s.Runs = []c20Run{ok, ok}
-	case 3, 4:
-		s.Runs = []c20Run{fault(), ok}
-	case 5:
-		s.Runs = []c20Run{fault(), ok, ok}
-	case 6:
-		s.Runs = []c20Run{fault(), fault(), ok}
 	default:
-		s.Runs = []c20Run{ok, fault(), ok}
+		switch x {
+		case 0:
+			s.Runs = []c20Run{ok}
+		case 1, 2:
+			s.Runs = []c20Run{ok, ok}
+		case 3, 4:
+			s.Runs = []c20Run{fault(), ok}
+		case 5:
+			s.Runs = []c20Run{fault(), ok, ok}
+		case 6:
+			s.Runs = []c20Run{fault(), fault(), ok}
+		default:
+			s.Runs = []c20Run{ok, fault(), ok}
+		}
 	}
 	// a concurrent peer initialiser: in most TLS-only scenarios, in a share of the others that have a TLS step
 	hasTLS := false
@@ -527,6 +632,21 @@ func c20Gen(r *Rng, tier string) *c20Scn {
 				s.Runs = append(s.Runs, ok)
 			}
 		}
+	} else if !tlsOnly && r.Chance(1, 3) {
+		// another writer on ANY object (packages, CRDs, webhook configurations, Lock, defaults, secrets): a concurrent
+		// initialiser of the same / another release, complete or crashed half-way; or a user / controller / GC
+		i := 0
+		if len(s.Runs) > 1 && r.Chance(1, 5) {
+			i = 1
+		}
+		if c20AddWriter(r, s, i, Pick(r, []string{"init", "init", "user", "user", "user"})) {
+			if i == len(s.Runs)-1 || r.Chance(1, 2) {
+				s.Runs = append(s.Runs, ok)
+			}
+			if r.Chance(1, 3) {
+				s.Runs = append(s.Runs, ok)
+			}
+		}
 	}
 	return s
 }
@@ -534,11 +654,12 @@ func c20Gen(r *Rng, tier string) *c20Scn {
 // ---------------------------------------------------------------- the peer
 
 // c20PeerModes: what the concurrent peer has done by the time it gets in front of one of our calls.
-//   complete     - it ran its whole TLS step: CA created / completed unless a complete one is stored, every
-//                  configured leaf secret without material issued from the CA that is then stored
-//   caOnly       - it got as far as storing its CA
-//   leavesOnly   - it found a complete CA and issued the leaves
-//   placeholders - the chart (re)created the secrets as empty placeholders
+//
+//	complete     - it ran its whole TLS step: CA created / completed unless a complete one is stored, every
+//	               configured leaf secret without material issued from the CA that is then stored
+//	caOnly       - it got as far as storing its CA
+//	leavesOnly   - it found a complete CA and issued the leaves
+//	placeholders - the chart (re)created the secrets as empty placeholders
 var c20PeerModes = []string{"complete", "complete", "complete", "complete", "caOnly", "leavesOnly", "placeholders"}
 
 func c20FindSecret(xs []c20Secret, name string) *c20Secret {
@@ -813,6 +934,29 @@ func c20Normalize(s *c20Scn) {
 		if s.Peer[i].Secrets == nil {
 			s.Peer[i].Secrets = []c20Secret{}
 		}
+		if s.Peer[i].Ops == nil {
+			s.Peer[i].Ops = []c20Op{}
+		}
+		for j := range s.Peer[i].Ops {
+			op := &s.Peer[i].Ops[j]
+			if op.Pkg != nil {
+				op.Pkg.Ref = c20Parse(op.Pkg.Raw)
+			}
+			if op.Crd != nil {
+				if op.Crd.Versions == nil {
+					op.Crd.Versions = []c20Ver{}
+				}
+				if op.Crd.Stored == nil {
+					op.Crd.Stored = []string{}
+				}
+				if !op.Crd.Conv {
+					op.Crd.Bundle = nil
+				}
+			}
+			if op.Whc != nil && op.Whc.Hooks == nil {
+				op.Whc.Hooks = []c20Hook{}
+			}
+		}
 		for j := range s.Peer[i].Secrets {
 			for _, b := range []*c20Blob{s.Peer[i].Secrets[j].Crt, s.Peer[i].Secrets[j].Key, s.Peer[i].Secrets[j].CA} {
 				if b != nil && b.T == "c" && b.DNS == nil {
@@ -833,10 +977,13 @@ func c20CloneScn(s *c20Scn) *c20Scn {
 	return &out
 }
 
-// c20CountCalls: API calls of a fault-free run from the scenario's initial state.
-func c20CountCalls(s *c20Scn) int {
+// c20BaselineLog: the API calls of a fault-free run from the scenario's initial state.
+func c20BaselineLog(s *c20Scn) []string {
 	s2 := c20CloneScn(s)
 	w := c20NewWorld(s2)
 	var junk []Mon
-	return w.runOnce(s2, -1, c20Run{K: -1}, &junk).calls
+	return w.runOnce(s2, -1, c20Run{K: -1}, &junk).obs.Log
 }
+
+// c20CountCalls: their number.
+func c20CountCalls(s *c20Scn) int { return len(c20BaselineLog(s)) }
